@@ -23,7 +23,7 @@ RULE = (
     'settings arguments, a second simultaneous handle, pickle round trip, the next call made from another thread, from a '
     'forked child (parent and child both continue) or from a fresh interpreter; creation settings drawn over every '
     'DEFAULT_SETTINGS key and Disk/JSONDisk, checked on every new handle; FanoutCache and DjangoCache reopen/unpickle with '
-    'non-default total size_limit. Format: directories written by the vendored PINNED release (every key and value '
+    'non-default total size_limit, the directory spelled absolutely, with ~ or with an environment variable at creation and at reopening. Format: directories written by the vendored PINNED release (every key and value '
     'representation of C01/C02, tags, expiry, 3-shard fanout, Deque, Index) are read by the working tree item for item, '
     'appended to and re-read; a committed golden directory written once by the pinned tree is the fixed anchor. '
     'non-trivial = an event lands between two writes to the same key or the directory holds >= 3 representations; format '
